@@ -5,8 +5,8 @@ import ast
 
 from sa.report import Cx
 from sa.walker import WalkOptions
-from sa.terms import (Sym, Attr, Sub, App, Fresh, TupleT, Const, CompInfo, AEq, AIsInst, f_not, implies, mk_cmp)
-from .common import BATCH, check_atomic, check_keyed_insert, check_keyed_delete, check_pure, order_class, strip_versions
+from sa.terms import (Sym, Attr, Sub, App, Fresh, TupleT, Const, CompInfo, FTrue, AEq, AIsInst, f_not, implies, mk_cmp)
+from .common import BATCH, list_facts, _loop_stage_table, check_atomic, check_keyed_insert, check_keyed_delete, check_pure, order_class, strip_versions
 
 PID = 'C14'
 EXPLANATION = (
@@ -35,7 +35,7 @@ def check_build(cx: Cx):
     params = Attr(self_s, '_parameters')
     paths = cx.walker.paths(build, WalkOptions(unroll=1))
     rets = [p for p in paths if p.end == 'return']
-    cx.floor('build() returning paths', len(rets), 3)
+    cx.floor('build() returning paths', len(rets), 1)
     kinds = set()
     reported = set()
 
@@ -44,6 +44,7 @@ def check_build(cx: Cx):
             reported.add(missing)
             cx.violation(rule, build.qualname, missing, msg, where=where, **kw)
 
+    table = _loop_stage_table(paths)
     for p in rets:
         v = p.last.data.get('value')
         where = cx.where(build, p.last.line)
@@ -57,87 +58,89 @@ def check_build(cx: Cx):
         pe = prods[0]
         args = pe.data.get('args', ())
         if not (len(args) == 1 and isinstance(args[0], App) and args[0].fn == '*' and isinstance(args[0].args[0], Fresh)
-                and args[0].args[0].kind in ('list', 'call:list')):
+                and args[0].args[0].kind in ('list', 'call:list', 'listcomp')):
             viol('R-GUARD', 'product-over-star-of-fresh-list', f"itertools.product is called with {args!r}, not *<list built in this call>",
                  cx.where(build, pe.line))
             continue
         L = args[0].args[0]
-        # ---- result = [dict(t) for t in product(*L)]
+        # ---- result = [dict(t) for t in product(*L)], written as a comprehension or as a loop with appends
         good = False
-        if isinstance(v, Fresh) and v.kind == 'listcomp' and isinstance(v.detail, CompInfo) and len(v.detail.gens) == 1:
-            tgt, src, conds = v.detail.gens[0]
-            elt = v.detail.elt
-            if src == pe.data.get('result') and not conds and isinstance(elt, Fresh) and elt.kind == 'call:dict' and elt.items == (tgt,):
+        lf = list_facts(paths, p, v, lambda s: strip_versions(s) == strip_versions(pe.data.get('result')), table) if isinstance(v, Fresh) else None
+        if lf is not None and lf.ok and lf.key is None and lf.base_var is not None and lf.cond == FTrue and lf.stages == 1:
+            elt = lf.elem
+            if isinstance(elt, Fresh) and elt.kind == 'call:dict' and elt.items == (lf.base_var,):
                 good = True
         if not good:
             viol('R-FRESH', 'one-fresh-dict-per-combination', f"build() returns {v!r}; it must be [dict(t) for t in product(*lists)] - "
                  f"one independent dictionary per combination, every combination once", where)
             continue
         # ---- L gets one entry per declared parameter, in declaration order
-        loops = [e for e in p.events if e.kind == 'loop']
-        ploops = [lp for lp in loops if order_class(lp.data.get('iter'), params) != 'unrelated']
-        if len(ploops) != 1:
-            viol('R-ITER', 'one-pass-over-the-declaration', f"build() must make one pass over _parameters (found {len(ploops)} loops)", where)
-            continue
-        lp = ploops[0]
-        if order_class(lp.data.get('iter'), params) != 'inorder':
-            viol('R-ITER', 'declaration-order', f"build() iterates {lp.data.get('iter')!r}: not the declaration order of the parameters",
-                 cx.where(build, lp.line))
-            continue
-        ends = [e for e in p.events if e.kind == 'endloop' and e.node is lp.node]
-        if any(e.data.get('how') != 'exhausted' for e in ends):
-            viol('R-ITER', 'every-parameter-visited', "build() leaves the loop over the parameters early", cx.where(build, lp.line))
-            continue
-        iters = [e for e in p.events if e.kind == 'iter' and e.node is lp.node]
-        apps = [e for e in p.events if e.kind == 'store' and strip_versions(e.data.get('target')) == L]
-        if any(e.data.get('store') != 'append' for e in apps) or len(apps) != len(iters):
-            viol('R-ITER', 'one-tail-append-per-parameter', f"build(): {len(apps)} writes to the list of lists in {len(iters)} iteration(s) "
-                 f"({[e.data.get('store') for e in apps]}); each parameter must be appended exactly once at the tail", cx.where(build, lp.line))
-            continue
-        for it_ev, ap in zip(iters, apps):
-            info = it_ev.data['info']
-            if info.get('kind') == 'items':
-                key, value = info['index'], Sub(info['seq'], info['index'])
+        # cases: (key, value, entry, condition, handler type or None, paths/path for list facts, where)
+        cases = []
+        if L.kind == 'listcomp':
+            d = L.detail
+            if not (isinstance(d, CompInfo) and len(d.gens) == 1 and not d.gens[0][2] and order_class(d.gens[0][1], params) == 'inorder'):
+                viol('R-ITER', 'one-pass-over-the-declaration', f"build() must make one unfiltered pass over _parameters in declaration "
+                     f"order (found {L!r})", where)
+                continue
+            tgt, src, _ = d.gens[0]
+            if isinstance(tgt, TupleT) and len(tgt.items) == 2:
+                key, value = tgt.items
             else:
-                key = info.get('var')
-                value = Sub(params, key)
-            entry = ap.data.get('args', (None,))[0]
-            is_str_atoms = [AEq(App('type', (value,)), Sym('str')), AIsInst(value, Sym('str'))]
-            str_branch = any(implies(p.cond, a) is None for a in is_str_atoms)
-            not_str = any(implies(p.cond, f_not(a)) is None for a in is_str_atoms)
-            single = Fresh('list', (TupleT((key, value)),), 0)
-            handler = [e for e in p.events if e.kind == 'except' and e.loops and e.loops[0] == lp.node.lineno]
-            awhere = cx.where(build, ap.line)
-            if isinstance(entry, Fresh) and entry.kind == 'list':
-                if entry.items != single.items:
-                    viol('R-GUARD', 'single-value-entry-is-key-value', f"a single-valued parameter is wrapped as {entry!r}, not [(key, value)]", awhere)
-                    continue
-                if str_branch:
-                    kinds.add('str')
-                elif handler and not_str:
-                    if handler[-1].data.get('type') not in ('TypeError',):
-                        viol('R-GUARD', 'fallback-only-for-TypeError', f"the single-value fallback catches {handler[-1].data.get('type')}, "
-                             f"not only the TypeError of iterating a non-iterable", awhere)
-                        continue
-                    kinds.add('scalar')
+                key, value = tgt, Sub(params, tgt)
+            cases.append((key, value, d.elt, p, cx.where(build, L.site)))
+        else:
+            loops = [e for e in p.events if e.kind == 'loop']
+            ploops = [lp for lp in loops if order_class(lp.data.get('iter'), params) != 'unrelated']
+            if len(ploops) != 1:
+                viol('R-ITER', 'one-pass-over-the-declaration', f"build() must make one pass over _parameters (found {len(ploops)} loops)", where)
+                continue
+            lp = ploops[0]
+            if order_class(lp.data.get('iter'), params) != 'inorder':
+                viol('R-ITER', 'declaration-order', f"build() iterates {lp.data.get('iter')!r}: not the declaration order of the parameters",
+                     cx.where(build, lp.line))
+                continue
+            ends = [e for e in p.events if e.kind == 'endloop' and e.node is lp.node]
+            if any(e.data.get('how') != 'exhausted' for e in ends):
+                viol('R-ITER', 'every-parameter-visited', "build() leaves the loop over the parameters early", cx.where(build, lp.line))
+                continue
+            iters = [e for e in p.events if e.kind == 'iter' and e.node is lp.node]
+            apps = [e for e in p.events if e.kind == 'store' and strip_versions(e.data.get('target')) == L]
+            if any(e.data.get('store') != 'append' for e in apps) or len(apps) != len(iters):
+                viol('R-ITER', 'one-tail-append-per-parameter', f"build(): {len(apps)} writes to the list of lists in {len(iters)} iteration(s) "
+                     f"({[e.data.get('store') for e in apps]}); each parameter must be appended exactly once at the tail", cx.where(build, lp.line))
+                continue
+            for it_ev, ap in zip(iters, apps):
+                info = it_ev.data['info']
+                if info.get('kind') == 'items':
+                    key, value = info['index'], Sub(info['seq'], info['index'])
                 else:
-                    viol('R-GUARD', 'single-wrap-only-for-str-or-non-iterable',
-                         f"build() wraps the value as a single combination on a path that neither established 'is a str' nor came "
-                         f"from the TypeError fallback ({p.cond!r})", awhere)
-            elif isinstance(entry, Fresh) and entry.kind == 'listcomp' and isinstance(entry.detail, CompInfo) and len(entry.detail.gens) == 1:
-                tgt, src, conds = entry.detail.gens[0]
-                if not (src == value and not conds and entry.detail.elt == TupleT((key, tgt))):
-                    viol('R-GUARD', 'collection-entry-is-key-v-for-v-in-value',
-                         f"a collection-valued parameter is expanded as {entry.detail.elt!r} for {tgt!r} in {src!r}; expected (key, v) for "
-                         f"v in the parameter's own value, unfiltered", awhere)
+                    key = info.get('var')
+                    value = Sub(params, key)
+                cases.append((key, value, ap.data.get('args', (None,))[0], p, cx.where(build, ap.line)))
+        for key, value, entry, q, awhere in cases:
+            helper = cx.prog.functions.get(entry.fn[5:]) if isinstance(entry, App) and entry.fn.startswith('call:') else None
+            if helper is not None:
+                # the expansion of one parameter was factored out: its return paths are the cases
+                hp_all = cx.walker.paths(helper, WalkOptions(unroll=1))
+                hparams = helper.params if (helper.is_static or helper.cls is None) else helper.params[1:]
+                hargs = entry.args[-len(hparams):] if hparams else ()
+                if len(hparams) != 2 or tuple(hargs) != (key, value) or entry.kw:
+                    viol('R-GUARD', 'entry-shape', f"build() appends {entry!r}: the helper does not receive exactly (key, value)", awhere)
                     continue
-                if not not_str:
-                    viol('R-GUARD', 'str-test-dominates-iteration', "build() iterates a value without first establishing that it is "
-                         "not a str: strings would be split into characters", awhere)
-                    continue
-                kinds.add('collection')
+                hk, hv = Sym(hparams[0]), Sym(hparams[1])
+                htable = _loop_stage_table(hp_all)
+                for hq in hp_all:
+                    if hq.end != 'return':
+                        continue
+                    _check_entry(cx, viol, kinds, hk, hv, hq.last.data.get('value'), hq, hp_all, htable, None, cx.where(helper, hq.last.line))
+                for n in ast.walk(helper.node):
+                    if isinstance(n, ast.Try) and not _try_only_iterates(n):
+                        viol('R-GUARD', 'try-guards-only-the-value-iteration',
+                             f"the try block in {helper.name}() contains more than the iteration of the value: an unrelated TypeError "
+                             f"would silently turn a collection into a single value", cx.where(helper, n.lineno))
             else:
-                viol('R-GUARD', 'entry-shape', f"build() appends {entry!r}: not a list of (key, value) pairs", awhere)
+                _check_entry(cx, viol, kinds, key, value, entry, q, paths, table, lp.node.lineno if L.kind != 'listcomp' else None, awhere)
     if not reported:
         if kinds >= {'str', 'collection', 'scalar'}:
             cx.ok('R-GUARD', 'build(): product(*one list of (key, value) pairs per parameter, declaration order), dict per tuple; '
@@ -148,8 +151,7 @@ def check_build(cx: Cx):
     # the TypeError handler guards only the iteration of the value
     for n in ast.walk(build.node):
         if isinstance(n, ast.Try):
-            inner_calls = [c for s in n.body for c in ast.walk(s) if isinstance(c, ast.Call)]
-            if len(n.body) != 1 or inner_calls:
+            if not _try_only_iterates(n):
                 cx.violation('R-GUARD', build.qualname, 'try-guards-only-the-value-iteration',
                              "the try block in build() contains more than the iteration of the value: an unrelated TypeError "
                              "would silently turn a collection into a single value", where=cx.where(build, n.lineno))
@@ -157,6 +159,78 @@ def check_build(cx: Cx):
     from .common import check_result_fresh
     check_result_fresh(cx, build.qualname)
 
+
+
+def _check_entry(cx, viol, kinds, key, value, entry, p, paths, table, loop_line, awhere):
+    """One parameter's entry in the list of lists, on path p: [(key, value)] when the value is a str or not iterable (the
+    TypeError fallback), [(key, v) for v in value] otherwise."""
+    is_str_atoms = [AEq(App('type', (value,)), Sym('str')), AIsInst(value, Sym('str'))]
+    str_branch = any(implies(p.cond, a) is None for a in is_str_atoms)
+    not_str = any(implies(p.cond, f_not(a)) is None for a in is_str_atoms)
+    single = (TupleT((key, value)),)
+    handler = [e for e in p.events if e.kind == 'except' and (loop_line is None or (e.loops and e.loops[0] == loop_line))]
+    if isinstance(entry, Fresh) and entry.kind == 'list' and entry.items:
+        if entry.items != single:
+            viol('R-GUARD', 'single-value-entry-is-key-value', f"a single-valued parameter is wrapped as {entry!r}, not [(key, value)]", awhere)
+            return
+        if str_branch:
+            kinds.add('str')
+        elif handler and not_str:
+            if handler[-1].data.get('type') not in ('TypeError',):
+                viol('R-GUARD', 'fallback-only-for-TypeError', f"the single-value fallback catches {handler[-1].data.get('type')}, "
+                     f"not only the TypeError of iterating a non-iterable", awhere)
+                return
+            kinds.add('scalar')
+        else:
+            viol('R-GUARD', 'single-wrap-only-for-str-or-non-iterable',
+                 f"build() wraps the value as a single combination on a path that neither established 'is a str' nor came "
+                 f"from the TypeError fallback ({p.cond!r})", awhere)
+    elif isinstance(entry, Fresh) and entry.kind in ('listcomp', 'list', 'call:list'):
+        ef = list_facts(paths, p, entry, lambda s: strip_versions(s) == value, table)
+        if not (ef.ok and ef.key is None and ef.base_var is not None and ef.cond == FTrue and ef.stages == 1 and
+                ef.elem == TupleT((key, ef.base_var))):
+            viol('R-GUARD', 'collection-entry-is-key-v-for-v-in-value',
+                 f"a collection-valued parameter is expanded as {entry!r} ({ef.err or ef.elem!r}); expected (key, v) for "
+                 f"v in the parameter's own value, unfiltered", awhere)
+            return
+        if not not_str:
+            viol('R-GUARD', 'str-test-dominates-iteration', "build() iterates a value without first establishing that it is "
+                 "not a str: strings would be split into characters", awhere)
+            return
+        kinds.add('collection')
+    else:
+        viol('R-GUARD', 'entry-shape', f"build() appends {entry!r}: not a list of (key, value) pairs", awhere)
+
+
+def _try_only_iterates(n: ast.Try) -> bool:
+    """The guarded block does nothing but expand a value into a list: a comprehension, or a list allocated in the block
+    that a `for` loop fills by append; no other call (whose TypeError would be misread as 'not iterable')."""
+    local_lists = set()
+    for s in n.body:
+        if isinstance(s, (ast.Assign, ast.AnnAssign)):
+            tgts = s.targets if isinstance(s, ast.Assign) else [s.target]
+            val = s.value
+            if val is None or not all(isinstance(t, ast.Name) for t in tgts):
+                return False
+            if any(isinstance(c, ast.Call) for c in ast.walk(val)):
+                return False
+            if isinstance(val, ast.List) and not val.elts:
+                local_lists |= {t.id for t in tgts}
+        elif isinstance(s, ast.Return):
+            if s.value is not None and any(isinstance(c, ast.Call) for c in ast.walk(s.value)):
+                return False
+        elif isinstance(s, ast.For):
+            if s.orelse or any(isinstance(c, ast.Call) for c in ast.walk(s.iter)):
+                return False
+            for b in s.body:
+                ok = isinstance(b, ast.Expr) and isinstance(b.value, ast.Call) and isinstance(b.value.func, ast.Attribute) and \
+                    b.value.func.attr == 'append' and isinstance(b.value.func.value, ast.Name) and b.value.func.value.id in local_lists \
+                    and not any(isinstance(c, ast.Call) for a in b.value.args for c in ast.walk(a))
+                if not ok:
+                    return False
+        else:
+            return False
+    return True
 
 
 def check_declaration(cx: Cx):
